@@ -26,15 +26,20 @@ func c19(r *Report, s *Sem) {
 	}
 	// ---- R1
 	clientF := p.Field("channel", "client")
-	var ctxParam *ssa.Parameter
+	var ctxParam ssa.Value // the receiver's context: a parameter, or a captured variable when the receiver is a function literal
 	for _, pr := range a.receiver.Params {
 		if n := namedOf(pr.Type()); n != nil && n.Obj().Name() == "Context" {
 			ctxParam = pr
 		}
 	}
+	for _, fv := range a.receiver.FreeVars {
+		if n := namedOf(fv.Type()); n != nil && n.Obj().Name() == "Context" {
+			ctxParam = fv
+		}
+	}
 	isCtxDone := func(v ssa.Value) bool {
 		call, _ := callOf(v)
-		return call != nil && call.Call.IsInvoke() && call.Call.Method.Name() == "Done" && ctxParam != nil && stripConv(call.Call.Value) == ssa.Value(ctxParam)
+		return call != nil && call.Call.IsInvoke() && call.Call.Method.Name() == "Done" && ctxParam != nil && stripConv(call.Call.Value) == ctxParam
 	}
 	var bad []string
 	walkFrom(a.receiver, nil, walkOpts{
@@ -66,7 +71,7 @@ func c19(r *Report, s *Sem) {
 					x, y = y, x
 				}
 				if isNilConst(y) {
-					if call, _ := callOf(x); call != nil && call.Call.IsInvoke() && call.Call.Method.Name() == "Err" && stripConv(call.Call.Value) == ssa.Value(ctxParam) {
+					if call, _ := callOf(x); call != nil && call.Call.IsInvoke() && call.Call.Method.Name() == "Err" && stripConv(call.Call.Value) == ctxParam {
 						return cd.Op == token.NEQ
 					}
 				}
